@@ -260,4 +260,201 @@ mutual
       simp [ih1, hnot, ih2, Fields.snoc_eq_append, Fields.norm]
 end
 
+/-! ### what the round trip preserves -/
+
+mutual
+  theorem Dtype.bytes_norm : (d : Dtype) → (n : String) → (Dtype.norm n d).bytes = d.bytes
+    | .prim _, _ => by simp [Dtype.norm]
+    | .custom _ _, _ => by simp [Dtype.norm]
+    | .enum_ _ _ _, _ => by simp [Dtype.norm, Dtype.bytes]
+    | .tuple _ e k, _ => by simp [Dtype.norm, Dtype.bytes, Dtype.bytes_norm e ""]
+    | .struct _ fs, _ => by simp [Dtype.norm, Dtype.bytes, Fields.bytes_norm fs]
+    | .union_ _ fs, _ => by simp [Dtype.norm, Dtype.bytes, Fields.bytes_norm fs]
+  theorem Fields.bytes_norm : (fs : Fields) → fs.norm.bytes = fs.bytes
+    | .nil => by simp [Fields.norm]
+    | .cons _ d r => by simp [Fields.norm, Fields.bytes, Dtype.bytes_norm d "", Fields.bytes_norm r]
+end
+
+mutual
+  theorem Dtype.flatten_norm : (d : Dtype) → (n : String) → (Dtype.norm n d).flatten = d.flatten
+    | .prim _, _ => by simp [Dtype.norm]
+    | .custom _ _, _ => by simp [Dtype.norm]
+    | .enum_ _ _ _, _ => by simp [Dtype.norm, Dtype.flatten]
+    | .tuple _ e k, _ => by simp [Dtype.norm, Dtype.flatten, Dtype.flatten_norm e ""]
+    | .struct _ fs, _ => by simp [Dtype.norm, Dtype.flatten, Fields.flatten_norm fs]
+    | .union_ _ fs, _ => by simp [Dtype.norm, Dtype.flatten, Fields.flatten_norm fs]
+  theorem Fields.flatten_norm : (fs : Fields) → fs.norm.flatten = fs.flatten
+    | .nil => by simp [Fields.norm]
+    | .cons _ d r => by simp [Fields.norm, Fields.flatten, Dtype.flatten_norm d "", Fields.flatten_norm r]
+end
+
+mutual
+  theorem Dtype.equiv_norm : (d : Dtype) → (n : String) → d.Equiv (Dtype.norm n d)
+    | .prim _, _ => by simp [Dtype.norm, Dtype.Equiv]
+    | .custom _ _, _ => by simp [Dtype.norm, Dtype.Equiv]
+    | .enum_ _ _ _, _ => by simp [Dtype.norm, Dtype.Equiv]
+    | .tuple _ e k, _ => by simp [Dtype.norm, Dtype.Equiv, Dtype.equiv_norm e ""]
+    | .struct _ fs, _ => by simp [Dtype.norm, Dtype.Equiv, Fields.equiv_norm fs]
+    | .union_ _ fs, _ => by simp [Dtype.norm, Dtype.Equiv, Fields.equiv_norm fs]
+  theorem Fields.equiv_norm : (fs : Fields) → fs.Equiv fs.norm
+    | .nil => by simp [Fields.norm, Fields.Equiv]
+    | .cons _ d r => by simp [Fields.norm, Fields.Equiv, Dtype.equiv_norm d "", Fields.equiv_norm r]
+end
+
+mutual
+  /-- serialising the read-back value gives the same JSON again -/
+  theorem Dtype.toJson_norm : (d : Dtype) → (n m : String) → (Dtype.norm n d).toJson m = d.toJson m
+    | .prim _, _, _ => by simp [Dtype.norm]
+    | .custom _ _, _, _ => by simp [Dtype.norm]
+    | .enum_ _ _ _, _, _ => by simp [Dtype.norm, Dtype.toJson]
+    | .tuple _ e k, _, _ => by simp [Dtype.norm, Dtype.toJson, Dtype.toJson_norm e "" ""]
+    | .struct _ fs, _, _ => by simp [Dtype.norm, Dtype.toJson, Fields.toJson_norm fs]
+    | .union_ _ fs, _, _ => by simp [Dtype.norm, Dtype.toJson, Fields.toJson_norm fs]
+  theorem Fields.toJson_norm : (fs : Fields) → fs.norm.toJson = fs.toJson
+    | .nil => by simp [Fields.norm]
+    | .cons _ d r => by simp [Fields.norm, Fields.toJson, Dtype.toJson_norm d "" "", Fields.toJson_norm r]
+end
+
+mutual
+  theorem Dtype.wf_norm : (d : Dtype) → (n : String) → d.WF → (Dtype.norm n d).WF
+    | .prim _, _, h => by simpa [Dtype.norm] using h
+    | .custom _ _, _, _ => by simp [Dtype.norm, Dtype.WF]
+    | .enum_ _ _ _, _, h => by simpa [Dtype.norm, Dtype.WF] using h
+    | .tuple _ e k, _, h => by
+        have := Dtype.wf_norm e "" (by simpa [Dtype.WF] using h)
+        simpa [Dtype.norm, Dtype.WF] using this
+    | .struct _ fs, _, h => by
+        have h' : fs.WF ∧ fs.names.Nodup := by simpa [Dtype.WF] using h
+        simpa [Dtype.norm, Dtype.WF, Fields.names_norm] using ⟨Fields.wf_norm fs h'.1, h'.2⟩
+    | .union_ _ fs, _, h => by
+        have h' : fs.WF ∧ fs.names.Nodup := by simpa [Dtype.WF] using h
+        simpa [Dtype.norm, Dtype.WF, Fields.names_norm] using ⟨Fields.wf_norm fs h'.1, h'.2⟩
+  theorem Fields.wf_norm : (fs : Fields) → fs.WF → fs.norm.WF
+    | .nil, _ => by simp [Fields.norm, Fields.WF]
+    | .cons _ d r, h => by
+        have h' : d.WF ∧ r.WF := by simpa [Fields.WF] using h
+        simpa [Fields.norm, Fields.WF] using ⟨Dtype.wf_norm d "" h'.1, Fields.wf_norm r h'.2⟩
+end
+
+mutual
+  theorem Dtype.depth_norm : (d : Dtype) → (n : String) → (Dtype.norm n d).depth = d.depth
+    | .prim _, _ => by simp [Dtype.norm]
+    | .custom _ _, _ => by simp [Dtype.norm]
+    | .enum_ _ _ _, _ => by simp [Dtype.norm, Dtype.depth]
+    | .tuple _ e k, _ => by simp [Dtype.norm, Dtype.depth, Dtype.depth_norm e ""]
+    | .struct _ fs, _ => by simp [Dtype.norm, Dtype.depth, Fields.depth_norm fs]
+    | .union_ _ fs, _ => by simp [Dtype.norm, Dtype.depth, Fields.depth_norm fs]
+  theorem Fields.depth_norm : (fs : Fields) → fs.norm.depth = fs.depth
+    | .nil => by simp [Fields.norm]
+    | .cons _ d r => by simp [Fields.norm, Fields.depth, Dtype.depth_norm d "", Fields.depth_norm r]
+end
+
+theorem Dtype.name_norm (d : Dtype) (n : String) :
+    (Dtype.norm n d).name = if d.isComposite then n else d.name := by
+  cases d <;> simp [Dtype.norm, Dtype.name, Dtype.isComposite]
+
+-- equivalent dtypes have the same size and the same flattening (hence the same casts)
+mutual
+  theorem Dtype.Equiv.props : (d d' : Dtype) → d.Equiv d' → d.bytes = d'.bytes ∧ d.flatten = d'.flatten
+    | .prim n, d', h => by
+        cases d' <;> simp [Dtype.Equiv] at h
+        subst h; exact ⟨rfl, rfl⟩
+    | .custom n b, d', h => by
+        cases d' <;> simp [Dtype.Equiv] at h
+        obtain ⟨h1, h2⟩ := h; subst h1; subst h2; exact ⟨rfl, rfl⟩
+    | .enum_ _ b es, d', h => by
+        cases d' <;> simp [Dtype.Equiv] at h
+        obtain ⟨h1, h2⟩ := h; subst h1; subst h2; simp [Dtype.bytes, Dtype.flatten]
+    | .tuple _ e k, d', h => by
+        cases d' with
+        | tuple _ e' k' =>
+          simp only [Dtype.Equiv] at h
+          have := Dtype.Equiv.props e e' h.2
+          simp [Dtype.bytes, Dtype.flatten, this.1, this.2, h.1]
+        | _ => simp [Dtype.Equiv] at h
+    | .struct _ fs, d', h => by
+        cases d' with
+        | struct _ gs =>
+          simp only [Dtype.Equiv] at h
+          simpa [Dtype.bytes, Dtype.flatten] using Fields.Equiv.props fs gs h
+        | _ => simp [Dtype.Equiv] at h
+    | .union_ _ fs, d', h => by
+        cases d' with
+        | union_ _ gs =>
+          simp only [Dtype.Equiv] at h
+          simpa [Dtype.bytes, Dtype.flatten] using Fields.Equiv.props fs gs h
+        | _ => simp [Dtype.Equiv] at h
+  theorem Fields.Equiv.props : (fs gs : Fields) → fs.Equiv gs → fs.bytes = gs.bytes ∧ fs.flatten = gs.flatten
+    | .nil, gs, h => by
+        cases gs <;> simp [Fields.Equiv] at h
+        exact ⟨rfl, rfl⟩
+    | .cons n d r, gs, h => by
+        cases gs with
+        | nil => simp [Fields.Equiv] at h
+        | cons m e s =>
+          simp only [Fields.Equiv] at h
+          have h1 := Dtype.Equiv.props d e h.2.1
+          have h2 := Fields.Equiv.props r s h.2.2
+          simp [Fields.bytes, Fields.flatten, h1.1, h1.2, h2.1, h2.2]
+end
+
+/-! ### kernel argument metadata -/
+
+def ArgMeta.norm (a : ArgMeta) : ArgMeta := { a with dtype := Dtype.norm "" a.dtype }
+def KernelMeta.norm (m : KernelMeta) : KernelMeta :=
+  { initialized := true, name := m.name, arguments := m.arguments.map ArgMeta.norm }
+def KernelMeta.WF (m : KernelMeta) : Prop := ∀ a ∈ m.arguments, a.dtype.WF
+
+theorem foldl_max_le (l : List ArgMeta) : ∀ (k : Nat), k ≤ l.foldl (fun n a => max n a.depth) k ∧
+    ∀ a ∈ l, a.depth ≤ l.foldl (fun n a => max n a.depth) k := by
+  induction l with
+  | nil => intro k; simp
+  | cons x r ih =>
+    intro k
+    have h := ih (max k x.depth)
+    simp only [List.foldl_cons, List.mem_cons, forall_eq_or_imp]
+    refine ⟨by omega, by omega, h.2⟩
+
+theorem KernelMeta.depth_arg (m : KernelMeta) {a : ArgMeta} (h : a ∈ m.arguments) : a.dtype.depth ≤ m.depth :=
+  (foldl_max_le m.arguments 0).2 a h
+
+theorem ArgMeta.fromJson_toJson (hE : Gen.enumWritesBytes = true) (hR : Gen.fromJsonRestoresBytes = true)
+    (hI : Gen.builtinByIdentity = true) (a : ArgMeta) (fuel : Nat) (hw : a.dtype.WF) (hd : a.dtype.depth ≤ fuel) :
+    ArgMeta.fromJson fuel a.toJson = .ok a.norm := by
+  have h := Dtype.fromJson_toJson hE hR hI a.dtype "" fuel hw hd
+  simp [ArgMeta.fromJson, ArgMeta.toJson, Json.get, List.find?, h, Json.toBool, Json.toStr?, ArgMeta.norm,
+        bind, Except.bind, pure, Except.pure]
+
+theorem mapM_ok {γ α β : Type} (f : γ → α) (g : α → Except Err β) (h : γ → β) :
+    ∀ (l : List γ), (∀ c ∈ l, g (f c) = .ok (h c)) → (l.map f).mapM g = .ok (l.map h) := by
+  intro l
+  induction l with
+  | nil => intro _; simp [pure, Except.pure]
+  | cons x r ih =>
+    intro hl
+    have h1 := hl x (by simp)
+    have h2 := ih (fun a ha => hl a (by simp [ha]))
+    simp [List.mapM_cons, h1, h2, bind, Except.bind, pure, Except.pure]
+
+theorem KernelMeta.fromJson_toJson (hE : Gen.enumWritesBytes = true) (hR : Gen.fromJsonRestoresBytes = true)
+    (hI : Gen.builtinByIdentity = true) (hM : Gen.fromJsonMarksInitialized = true)
+    (m : KernelMeta) (fuel : Nat) (hw : m.WF) (hd : m.depth ≤ fuel) :
+    KernelMeta.fromJson fuel m.toJson = .ok m.norm := by
+  have hargs : (m.arguments.map ArgMeta.toJson).mapM (ArgMeta.fromJson fuel) = .ok (m.arguments.map ArgMeta.norm) := by
+    apply mapM_ok
+    intro a ha
+    exact ArgMeta.fromJson_toJson hE hR hI a fuel (hw a ha) (Nat.le_trans (m.depth_arg ha) hd)
+  simp [KernelMeta.fromJson, KernelMeta.toJson, Json.get, List.find?, Json.array, hargs, Json.toStr?, hM,
+        KernelMeta.norm, bind, Except.bind, pure, Except.pure]
+
+/-! ### the cast relation only looks at `isByte` and the flattening -/
+
+theorem isByte_norm (d : Dtype) (n : String) : isByte (Dtype.norm n d) = isByte d := by
+  cases d <;> simp [Dtype.norm, isByte]
+
+theorem canCast_congr {a a' b b' : Dtype} (h1 : isByte a = isByte a') (h2 : a.flatten = a'.flatten)
+    (h3 : isByte b = isByte b') (h4 : b.flatten = b'.flatten) : canCast a b = canCast a' b' := by
+  unfold canCast
+  rw [h1, h2, h3, h4]
+
 end Occa.Dtype
